@@ -163,6 +163,8 @@ class AccfgGen:
             node["body"] = head + self.stmts(r.randint(1, 3), inner, depth + 1, True)
             if p.get("state_loops") and not node["carry"] and r.random() < p["state_loops"]:
                 node["carry_state"] = r.randrange(p["n_acc"])  # emitted as a loop that already carries that accelerator's state, if its body is simple enough
+                if p.get("stale_links") and r.random() < p["stale_links"]:
+                    node["stale_yield"] = r.randint(1, 2)  # the last setups of the body were inserted after the threading: unlinked, not yielded
                 if p.get("head_launch") and r.random() < p["head_launch"]:
                     node["head_launch"] = True  # the body first launches the configuration it was entered with (software-pipelined form)
             elif p.get("while_loops") and not node["carry"] and r.random() < p["while_loops"]:
@@ -321,9 +323,18 @@ def emit(ast, acc_names=None, vty="i32", decls=()) -> str:
             tk = fresh("t")
             e(ind + 1, f'{tk} = "accfg.launch"({"".join(f"{v}, " for v in lv)}{arg}) <{{param_names = [{lnames}], accelerator = "{an}"}}> : ({"".join(f"{vty}, " for _ in lv)}!accfg.state<"{an}">) -> !accfg.token<"{an}">')
             e(ind + 1, f'"accfg.await"({tk}) : (!accfg.token<"{an}">) -> ()')
+        n_sl = sum(x["k"] == "sl" for x in s["body"])
+        fresh_from = n_sl - min(s.get("stale_yield", 0), n_sl)  # setups from this one on are not part of the old threading
+        seen, yielded = 0, arg
         for x in s["body"]:
-            stmt(ind + 1, x, inner[a] if x["k"] == "sl" else None, inner)
-        e(ind + 1, f'scf.yield {inner[a]} : !accfg.state<"{an}">')
+            if x["k"] == "sl":
+                stmt(ind + 1, x, inner[a] if seen < fresh_from else None, inner)
+                seen += 1
+                if seen <= fresh_from:
+                    yielded = inner[a]
+            else:
+                stmt(ind + 1, x, None, inner)
+        e(ind + 1, f'scf.yield {yielded} : !accfg.state<"{an}">')
         e(ind, "}")
         last.clear()
         last[a] = res
@@ -505,6 +516,8 @@ def shrink_body(body):
             if s.get(key):
                 for nb in shrink_body(s[key]):
                     yield body[:i] + [dict(s, **{key: nb})] + body[i + 1 :]
+        if k == "for" and s.get("stale_yield"):
+            yield body[:i] + [{kk: vv for kk, vv in s.items() if kk != "stale_yield"}] + body[i + 1 :]
         if k == "for" and s.get("head_launch"):
             yield body[:i] + [{kk: vv for kk, vv in s.items() if kk != "head_launch"}] + body[i + 1 :]
         if k == "for":
